@@ -65,7 +65,7 @@ Example C16_example :
   wf_dtree true ex_d = true /\
   embedded ex_T true ex_d = Some (VUser "a" [VUser "A" [VTok "A" "a"]; VNone; VUser "c" []]).
 Proof.
-  split; [|repeat split; reflexivity].
+  split; [|repeat split; vm_compute; reflexivity].
   intros n H. unfold ex_T, sym_T. simpl.
   destruct n as [|c n]; [discriminate|]. simpl in H. apply Ascii.eqb_eq in H. subst c.
   destruct n as [|c' n']; reflexivity.
